@@ -184,8 +184,18 @@ def check_case(c):
             want = [symp_ref(l, e) for l in LZ] + [symp_ref(l, e) for l in LX]
             if le != want:
                 return {'error': vec(e)}, f'logical_errors={le} but [products with logical Z | with logical X]={want}'
-        # linearity and coset invariance on a few pairs
+        # stacks: get_effective_error on a 2-D array of errors = row-by-row effects
+        from panqec.bpauli import get_effective_error
         es = c['errors']
+        if len(es) >= 2:
+            E = np.array(es[:40], dtype='uint8')
+            eff = np.asarray(get_effective_error(E, code.logicals_x, code.logicals_z)).reshape(len(E), -1)
+            for row, e in zip(eff, es[:40]):
+                want = [symp_ref(l, e) for l in LZ] + [symp_ref(l, e) for l in LX]
+                if [int(x) for x in row] != want:
+                    return ({'error': vec(es[0]), 'error2': vec(e)},
+                            f'stacked get_effective_error row {[int(x) for x in row]} but products with logicals {want}')
+        # linearity and coset invariance on a few pairs
         for a, b in zip(es[::2][:6], es[1::2][:6]):
             ab = [(x + y) % 2 for x, y in zip(a, b)]
             la = code.logical_errors(np.array(a, dtype='uint8'))
